@@ -1,0 +1,12 @@
+//go:build verif
+
+package recordstore
+
+// Machine-checked contracts for /verif (govc). Comment-only: compiled only with -tags verif, adds no code.
+
+// C06: a record path is only instantiated with a validated path name.
+
+//@ func FindSegments
+//@   property C06
+//@   safety -all
+//@   assert-call strings.ReplaceAll: old == "%path" ==> validName(new)
